@@ -54,6 +54,27 @@ def cases(tier, rng):
         out.append(("(rename-rule %d %s)" % (rng.choice([0, 1, 12]), rrule(rng)), "rule"))
         ts = [atom(rng.choice(["p", "go"]))] + [rterm(rng, 2) for _ in range(rng.randint(0, 4))]
         out.append(("(make-query (%s))" % " ".join(ts), "query"))
+    # beyond the small shapes: clauses with 17-40 distinct variables (each occurring 1-3 times) in wide heads and long bodies,
+    # counters beyond 2^16 / 2^32, predicates with 5-12 clauses fetched at every index
+    def wide_rule(rng, nv):
+        vs = [var(0, "$V%d" % i) for i in range(nv)]
+        occ = [v for v in vs for _ in range(rng.randint(1, 3))]
+        rng.shuffle(occ)
+        def take(k):
+            r = [occ.pop() if occ else rng.choice(vs) for _ in range(k)]
+            return [x if rng.random() < 0.7 else rng.choice([cplx("f", x), lst([x]), lst([atom("a")], x)]) for x in r]
+        head = cplx("p", *take(rng.choice([5, 8, 9])))
+        goals = []
+        while occ: goals.append(call(cplx(rng.choice(["q", "r", "edge"]), *take(rng.randint(1, 4)))))
+        body = op("and", *goals) if len(goals) > 1 else (goals[0] if goals else "gnil")
+        return rule(head, body)
+    for _ in range(40 if tier == "quick" else 1500):
+        r = wide_rule(rng, rng.choice([17, 18, 25, 33, 40]))
+        out.append(("(rename-rule %d %s)" % (rng.choice([0, 9, 255, 256, 65535, 70000, 2**32 + 5]), r), "rule"))
+        k = rng.randint(5, 12)
+        hs = [rule(cplx("p", *[rterm(rng, 1) for _ in range(2)]), "gnil" if rng.random() < 0.6 else rgoal(rng, 1)) for _ in range(k)]
+        for idx in range(k):
+            out.append(("(get-rule %d %d (kb %s))" % (rng.choice([0, 300, 65536]), idx, " ".join(hs)), "fetch"))
     # clause fetch (get_rule) from a knowledge base: facts whose variables sit only inside lists / nested complex
     # terms / function terms, ground facts, rules; fetched at several counters and indices
     def fact_shapes(rng):
